@@ -367,9 +367,10 @@ Proof. repeat split; vm_compute; reflexivity. Qed.
 (** one step of both machines on a subcommand name/alias, where a new argument may start: the engine's
     shadow parse descends to [es], the parser's token loop stops with the dispatch to [sc0], which
     [parse_subcommand] builds into [pc'] - and the two nodes are related again *)
-Theorem level_step_sub pc cur tok sc0 pi : lvl_rel pc cur -> assert_app pc = true ->
+Theorem level_step_sub pc cur tok sc0 pi evaf : lvl_rel pc cur -> assert_app pc = true ->
   utf8_valid tok = true -> find_subcommand pc tok = Some sc0 -> c_name sc0 <> s_help ->
-  exists es pc', shadow_step tok cur pi false ValueDone = SNext es 1 false ValueDone /\
+  (is_set s_args_negate_subs pc && evaf) = false ->
+  exists es pc', shadow_step tok cur pi false ValueDone evaf = SNext es 1 false ValueDone false /\
     build_subcommand pc (c_name sc0) = Some pc' /\ lvl_rel pc' es /\
     forall rest pos vaf st, (is_set s_args_negate_subs pc && vaf) = false ->
       exists n', aliases_to sc0 n' = true /\ find_subcommand pc n' = Some sc0 /\
@@ -377,10 +378,11 @@ Theorem level_step_sub pc cur tok sc0 pi : lvl_rel pc cur -> assert_app pc = tru
         if beq n' s_help && negb (is_set s_disable_help_sub pc) then Parser.ROk (Parser.LHelpSub rest st)
         else Parser.ROk (Parser.LSub n' false vaf st rest).
 Proof.
-  intros Hrel V Hu Hf Hnh.
+  intros Hrel V Hu Hf Hnh Hev.
   destruct (level_descent pc cur tok sc0 Hrel V Hf Hnh) as [es [pc' [Hfe [Hb Hrel']]]].
   exists es, pc'. split; [|split; [exact Hb|split; [exact Hrel'|]]].
-  - unfold shadow_step. cbn [negb]. rewrite orb_true_r, Hu. cbn [andb]. rewrite Hfe. reflexivity.
+  - unfold shadow_step. cbn [negb]. rewrite orb_true_r, <- (lvl_rel_is_set pc cur s_args_negate_subs Hrel), Hev, Hu.
+    cbn [andb negb]. rewrite Hfe. reflexivity.
   - intros rest pos vaf st Hng.
     assert (Hin : In sc0 (c_subs pc) /\ aliases_to sc0 tok = true) by (apply find_some in Hf; exact Hf).
     destruct Hin as [Hin Hal].
